@@ -15,7 +15,8 @@ from .loops import value_equal
 
 
 class Mismatch(Exception):
-    pass
+    """the shapes differ although the reachability of the yield sites was decided with generous budgets"""
+    definite = True
 
 
 class Leaf:
@@ -85,7 +86,7 @@ def _identity_map(fe):
     return False
 
 
-def prune(ls, pc, timeout_ms=150):
+def prune(ls, pc, timeout_ms=150):      # noqa
     """drop leaves that cannot be reached under the path condition (guard unsatisfiable)"""
     out = []
     for l in ls:
@@ -259,4 +260,12 @@ def match(actual, expected, pc=()):
     except Mismatch:
         if not pc:
             raise
-    return match_leaves(prune(la, pc), prune(lb, pc))
+    # escalating budgets: an unreachable yield site is refuted in well under a second when the machine is
+    # idle, but the verdict must not flip under load
+    last = None
+    for budget in (150, 3000, 12000):
+        try:
+            return match_leaves(prune(la, pc, budget), prune(lb, pc, budget))
+        except Mismatch as e:
+            last = e
+    raise last
